@@ -8,9 +8,13 @@ Part A (proof): Properties/C10.v — checksum model (ChecksumModel.v) with linea
   Descriptor::from_str (every accepted edit is a violation with the string as replay).
 Part B (proof): expression-tree parser model (ExprTreeModel.v), tree_rt / tree_total; tie:
   parser observations on generated and edited strings compared with the model inside Coq.
-Part C (correspondence/oracle only — the printers/parsers of miniscripts, descriptors,
-  policies and keys are NOT modelled in Coq): differential round trips on the real code with an
-  independent structural dump."""
+Part C (correspondence/oracle only — the printers/parsers of descriptors, policies and keys are NOT
+  modelled in Coq): differential round trips on the real code with an independent structural dump.
+Part D (proof): miniscript text layer — model MsTextModel.v of Display for Terminal (to_tree) and of
+  FromTree for Miniscript (from_tree), theorems C10_ms_print_parse / C10_ms_print_fixpoint /
+  C10_ms_parse_valid / C10_ms_alias_meaning; tie: Tree::from_str + Miniscript::from_tree + Display in the
+  four contexts on generated (three spellings), exhaustive wrapper-prefix, directed malformed and edited
+  texts, compared with the model inside Coq (Tables/MsTextCasesCheck.v)."""
 import json, os, re
 import vlib
 
@@ -214,6 +218,79 @@ def part_b(rep, hbin, tier, seed, cov):
     return 1, (1 if ok else 0)
 
 
+def part_d(rep, hbin, tier, seed, cov):
+    """Miniscript text layer (Display / FromTree): real parser + printer vs MsTextModel, inside Coq."""
+    tdir = os.path.join(vlib.COQ, "Tables")
+    p = _run_engine(hbin, ["mstext", str(seed), tier], tier)
+    open(os.path.join(tdir, "MsTextCasesGen.v"), "w").write(p.stdout)
+    m = re.search(r"MSTEXT cases=(\d+) printed=(\d+) context_only=(\d+) kinds=(\{.*?\}) outcomes=(\{.*?\})", p.stderr)
+    outcomes = json.loads(m.group(5)) if m else {}
+    cov["miniscript_text_layer"] = {
+        "cases": int(m.group(1)) if m else 0,
+        "printed_texts_compared_with_model_printer": int(m.group(2)) if m else 0,
+        "kinds": json.loads(m.group(4)) if m else {},
+        "outcomes[ok, errN = error class of from_tree (50 = expression-tree error, 16 = from_ast)]": outcomes,
+        "contexts": "Bare, Legacy, Segwitv0, Tap (a ContextError observation is not compared)"}
+    cov.setdefault("samples", []).extend(re.findall(r"MSTEXTSAMPLE (.*)", p.stderr)[:4])
+    for f in ("Tables/MsTextCasesGen.v", "Tables/MsTextCasesDefs.v"):
+        c = vlib.coqc(f)
+        if c.returncode != 0:
+            raise RuntimeError("%s does not compile: %s" % (f, (c.stderr or c.stdout)[-1500:]))
+    c2 = vlib.coqc("Tables/MsTextCasesCheck.v")
+    ok = c2.returncode == 0
+    if not ok:
+        c3 = vlib.coqc("Tables/MsTextCasesDiag.v")
+        diffs = []
+        mm = re.search(r"=\s*(\[.*\])\s*:\s*list", c3.stdout, flags=re.S) if c3.returncode == 0 else None
+        if mm:
+            import ast
+            txt = re.sub(r"%(N|nat)", "", mm.group(1)).replace(";", ",")
+            txt = re.sub(r"\bSome\b\s*", "", txt).replace("None", "None")
+            try:
+                val = ast.literal_eval(re.sub(r"\s+", " ", txt))
+            except Exception:
+                val = []
+            for row in val:
+                (i, text, impl, model, ipr, mpr) = row
+                diffs.append({"index": i, "input": _bytes_str(text), "implementation_obs[bare,legacy,segwitv0,tap]": [list(o) for o in impl],
+                              "model_obs": list(model),
+                              "implementation_printed": _bytes_str(ipr) if ipr is not None else None,
+                              "model_printed": _bytes_str(mpr) if mpr is not None else None})
+        # judge with the specification side: the round trip itself, on the real code
+        fail = None
+        if diffs:
+            tmp = os.path.join(vlib.WORK, "c10-mstext-replay.txt")
+            os.makedirs(vlib.WORK, exist_ok=True)
+            cand = []
+            for d in diffs:
+                cand.append(d["input"])
+                if d["implementation_printed"]:
+                    cand.append(d["implementation_printed"])
+            open(tmp, "w").write("".join("ms-segwit %s\nms-tap %s\n" % (t, t) for t in cand))
+            q = _run_engine(hbin, ["rt", "1", tier, tmp], tier)
+            for ri, (kind, res) in enumerate(re.findall(r"^REPLAY kind=(\S+) (.*)$", q.stdout, flags=re.M)):
+                bad = ("panic" in res) or ("reparse-error" in res) or ("verdict=FAIL" in res)
+                m2 = re.search(r"dump=(.*?) printed=(.*?) redump=(.*?) reprinted=(.*)$", res)
+                if m2 and (m2.group(1) != m2.group(3) or m2.group(2) != m2.group(4)):
+                    bad = True
+                if bad:
+                    # lines were written as (ms-segwit t, ms-tap t) per candidate text t
+                    fail = (kind, res, cand[ri // 2] if ri // 2 < len(cand) else "")
+                    break
+            for d in diffs:
+                if any(o[:1] == [2] for o in d["implementation_obs[bare,legacy,segwitv0,tap]"]):
+                    fail = fail or ("ms-segwit", "from_tree panics on %r" % d["input"], d["input"])
+        if fail:
+            rep.violation("mstext-rt", "miniscript text round trip fails on the real code: %s" % fail[1][:500],
+                          {"property": PID, "part": "round-trip", "key": "mstext-rt", "kind_line": "%s %s" % (fail[0], fail[2]),
+                           "differences": diffs, "seed": seed, "tier": tier}, True)
+        else:
+            rep.violation("mstext-tie", "miniscript text model and parser/printer differ: %s" % json.dumps(diffs[:1])[:500],
+                          {"property": PID, "part": "miniscript-text", "broken_tie": "mstext_cases_match_model (Tables/MsTextCasesCheck.v)",
+                           "differences": diffs, "log": (c2.stderr or c2.stdout)[-500:] if not diffs else ""}, False)
+    return 1, (1 if ok else 0)
+
+
 RT_REPLAY_KIND = {"miniscript/bare": "ms-bare", "miniscript/legacy": "ms-legacy", "miniscript/segwitv0": "ms-segwit",
                   "miniscript/tap": "ms-tap"}
 
@@ -331,33 +408,45 @@ def run(rep, tier, seed, replay):
     o, d = part_b(rep, hbin, tier, seed, cov)
     obligations += o
     discharged += d
+    o, d = part_d(rep, hbin, tier, seed, cov)
+    obligations += o
+    discharged += d
     rt_total, rt_fail = part_c(rep, hbin, tier, seed, cov)
     camp = cov.get("substitution_campaign", {})
     tab = cov.get("checksum_tables", {})
     evaluations = (tab.get("single_chars", 0) + tab.get("two_char_strings", 0) + tab.get("random_strings", 0) + tab.get("verify_cases", 0)
                    + camp.get("single_substitutions_all_positions_x_all_characters", 0) + camp.get("double_substitutions", 0)
                    + camp.get("in_group0_3or4_substitutions", 0) + camp.get("collision_sweep_checksums", 0)
-                   + cov.get("expression_tree", {}).get("cases", 0) + rt_total)
+                   + cov.get("expression_tree", {}).get("cases", 0) + cov.get("miniscript_text_layer", {}).get("cases", 0) + rt_total)
     rep.coverage.update(cov)
     rep.coverage.update({
         "obligations": obligations, "discharged": discharged,
-        "checker_cmd": "make -C coq ; coqc Properties/C10.v ; verif-harness text cktab | coqc Tables/ChecksumTables{Gen,Defs,Check}.v ; verif-harness text cksub",
+        "checker_cmd": "make -C coq ; coqc Properties/C10.v ; verif-harness text cktab | coqc Tables/ChecksumTables{Gen,Defs,Check}.v ; verif-harness text cksub ; "
+                       "verif-harness text mstext | coqc Tables/MsTextCases{Gen,Defs,Check}.v",
         "trusted_base": vlib.TRUSTED_BASE_COMMON + [
             "bech32 0.11.1 primitives::checksum::Engine is modelled (input_fe, mul_by_x_then_add, unpack), tied by the tables",
-            "Uint63 primitive integers (table transport only, evaluated by vm_compute; no axioms used)"],
+            "Uint63 primitive integers (table transport only, evaluated by vm_compute; no axioms used)",
+            "MiniscriptKey/FromStr of keys and hashes (opaque in the text theorems: hypothesis parse (print x) = Some x); "
+            "Tables/MsTextCasesDefs.v instantiates them for String keys (bijective base-256 numeration) and hash160 hex"],
         "evaluations": evaluations, "distinct_nontrivial": evaluations,
         "rule": "checksum: engine on all 95 single characters, all 9025 two-character strings, seeded random strings and "
                 "verify_checksum cases, compared with the model in Coq; every 1-substitution (position x character) and sampled "
                 "2-/in-group 3-4-substitutions of checksummed descriptors of 12 lengths against Descriptor::from_str; collision sweep; "
                 "expression-tree parser on every string over {a ( ) { } ,} up to length 5 (6 thorough) plus generated/edited/deep/wide strings, "
-                "compared with the model in Coq; print/parse/print of generated miniscripts (4 contexts, every alias spelling), descriptors, "
+                "compared with the model in Coq; miniscript text layer (from_tree AST or error class, Display text) in four contexts on "
+                "generated texts in three spellings, every wrapper prefix of length <= 2 (3 thorough; sampled in quick) over every fragment kind, "
+                "directed malformed texts and seeded edits, compared with the model in Coq; print/parse/print of generated miniscripts (4 contexts, every alias spelling), descriptors, "
                 "keys, policies, wallet policies with an independent structural dump",
     })
     rep.coverage["levels"] = {"checksum (Part A)": "proof + complete table tie + substitution campaign",
                               "expression tree (Part B)": "proof (see notes/C10.md for what is proved) + tie in Coq",
-                              "printers/parsers of miniscript, descriptor, key, policy, wallet policy (Part C)":
+                              "miniscript text layer: Display / from_tree (Part D)":
+                                  "proof (print-parse, fixed point, alias meaning; keys/hashes opaque, from_ast an arbitrary check) + tie in Coq",
+                              "printers/parsers of descriptor, key, policy, wallet policy; miniscript context rules (Part C)":
                                   "correspondence/oracle only: differential round trips on the real code, not modelled in Coq"}
     rep.assumptions = [
         "ChecksumModel.v transcribes checksum.rs and the bech32 engine it instantiates (tied on every run by the complete 1-/2-character tables and random strings)",
         "the BIP-380 reference algorithm in ChecksumModel.v (bip380_*) is a transcription of the BIP's Python",
+        "MsTextModel.v transcribes display.rs (as_node, fragment_name, conditional_fmt) and Miniscript::from_tree with the expression helpers it calls (tied on every run by Tables/MsTextCasesCheck.v)",
+        "miniscript text theorems: keys and hashes are opaque atoms whose parser inverts their printer (parse (print x) = Some x); Miniscript::from_ast is an arbitrary boolean check (the type check in the tie)",
     ]
